@@ -1,0 +1,8 @@
+//go:build verif
+
+// Contracts for package cmd, checked by /verif (govc). Comment-only file.
+package cmd
+
+//@ func buildRunner
+//@   property C12 C10 C16
+//@   trusted "composition root: drives the generated DI container (internal/gontainer, reflection-based runtime); its wiring is evaluated by the composition test, not proved"
